@@ -1,7 +1,7 @@
 (* C09: streaming is transparent -- results independent of I/O fragmentation and faults. *)
 From Coq Require Import List NArith Lia Bool.
 From Rpgp Require Import Base.Octets Base.Res Sym.Cfb Sym.Seipd1Machine Sym.Seipd1MachineProofs Frame.Framing Frame.BodyReader Frame.BodyReaderProofs Aead.Seipd2 Aead.Seipd2Machine Aead.Seipd2MachineProofs Io.Emitter Io.EmitterProofs Sym.Seipd1EncMachine Sym.Seipd1EncMachineProofs.
-From Rpgp Require Import Io.CrLfCheck Io.CrLfCheckProofs Io.Reassemble Io.ReassembleProofs Io.Fill Io.FillProofs Armor.Base64 Armor.LineWriter Armor.LineWriterProofs Armor.B64Reader Armor.B64ReaderProofs.
+From Rpgp Require Import Io.Utf8Check Io.Utf8CheckProofs Io.CrLfCheck Io.CrLfCheckProofs Io.Reassemble Io.ReassembleProofs Io.Fill Io.FillProofs Armor.Base64 Armor.LineWriter Armor.LineWriterProofs Armor.B64Reader Armor.B64ReaderProofs.
 Import ListNotations.
 Open Scope N_scope.
 
@@ -156,3 +156,16 @@ Theorem C09_crlf_check_stale_flag_refuted :
   exists chunks1 chunks2, concat chunks1 = concat chunks2 /\ stale_run false chunks1 <> stale_run false chunks2.
 Proof. exact stale_reader_is_cut_dependent. Qed.
 Print Assumptions C09_crlf_check_stale_flag_refuted.
+
+(* the UTF-8 check under it (Utf8CheckReader: at most three octets carried from read to read, four undecodable octets
+   refused at once, an overhang at the end of input refused): a run over any cutting, followed by the end of input, is
+   accepted exactly when the uncut stream is well-formed UTF-8 (Unicode table 3-7, written out in Io/Utf8Check.v) *)
+Theorem C09_utf8_check_is_well_formedness_for_every_cutting : forall chunks,
+  utf8_run [] chunks = well_formed (concat chunks).
+Proof. exact utf8_run_whole. Qed.
+Print Assumptions C09_utf8_check_is_well_formedness_for_every_cutting.
+
+Theorem C09_utf8_check_cutting_independent : forall chunks1 chunks2,
+  concat chunks1 = concat chunks2 -> utf8_run [] chunks1 = utf8_run [] chunks2.
+Proof. exact utf8_run_cutting_independent. Qed.
+Print Assumptions C09_utf8_check_cutting_independent.
